@@ -81,7 +81,8 @@ filter: max(sum(by("month"))) > 300 and "recurring" in tags
 ''',
 ]
 
-COMMENTS = ['# plain comment', '#[x]', '# match: y', '#', '   # indented comment']
+COMMENTS = ['# plain comment', '#[x]', '# match: y', '#', '   # indented comment',
+            '# page break\x0ccategory: Wiki\x0cpriority: 99', '# separators\x1cmatch: zz\x1dtags: q\x0bsubcategory: V']        # ASCII control characters are not line ends
 KEY_CASE = [str.lower, str.upper, str.title]
 
 
@@ -163,10 +164,10 @@ def layout(kind, i, focus):
 
     def ob_lines(nblank: int, comment_i: int, use_comment: bool, where: int, crlf: bool) -> bool:
         """
-        pre: 0 <= nblank <= 2 and 0 <= comment_i <= 4 and 0 <= where <= 9
+        pre: 0 <= nblank <= 2 and 0 <= comment_i <= 6 and 0 <= where <= 9
         post: _
         """
-        return core(nblank=_pick(nblank, 3), comment_i=_pick(comment_i, 5), use_comment=use_comment, where=_pick(where, 10), crlf=crlf)
+        return core(nblank=_pick(nblank, 3), comment_i=_pick(comment_i, 7), use_comment=use_comment, where=_pick(where, 10), crlf=crlf)
 
     def ob_space(ntrail: int, trail_tab: bool, indent: int, indent_tab: bool, crlf: bool) -> bool:
         """
@@ -241,6 +242,12 @@ def corrupt_merchants(i, how):
             lines.insert(st, 'priority: ' + BAD_PRIO[pick % len(BAD_PRIO)])
         elif how == 'junk-line':
             lines.insert(st, 'this is not a property')
+        elif how == 'colon-typo':
+            # a property line of the rule written with '=' instead of ':' (subcategory = Coffee)
+            props = [k for k in body if ':' in lines[k] and lines[k].strip() and not lines[k].strip().startswith('#')]
+            k = props[pick % len(props)]
+            key, val = lines[k].split(':', 1)
+            lines[k] = key + ' =' + val
         elif how == 'empty-name':
             lines[st - 1] = '[   ]'
         elif how == 'no-category-no-tags':
@@ -463,7 +470,7 @@ def obligations(tier, seed):
             obs.append(Obligation(id=f'layout-v{i}-{fo}', factory='layout', params={'kind': 'v', 'i': i, 'focus': fo}, timeout=to,
                                   group='layout insensitivity (views files)', bounds=f'base file v{i}; symbolic ' + what[fo]))
     for i in range(len(M_BASES)):
-        for how in ['drop-match', 'unknown-key', 'bad-match', 'bad-let', 'let-no-eq', 'bad-field', 'field-no-eq', 'bad-priority', 'junk-line', 'empty-name', 'no-category-no-tags']:
+        for how in ['drop-match', 'unknown-key', 'bad-match', 'bad-let', 'let-no-eq', 'bad-field', 'field-no-eq', 'bad-priority', 'junk-line', 'colon-typo', 'empty-name', 'no-category-no-tags']:
             obs.append(Obligation(id=f'reject-m{i}-{how}', factory='corrupt_merchants', params={'i': i, 'how': how}, timeout=to,
                                   group='reject, not trim (merchants files)', bounds=f'base file m{i}; corruption {how} in a symbolic rule (0-2) with a symbolic pick from the corruption texts'))
     for i in range(len(V_BASES)):
